@@ -1005,6 +1005,7 @@ nni_aio_expire_q_alloc(void)
 	eq->eq_exit = false;
 
 	if (nni_thr_init(&eq->eq_thr, nni_aio_expire_loop, eq) != 0) {
+		eq->eq_stop = true; // it never ran: there is nothing to stop
 		nni_aio_expire_q_free(eq);
 		return (NULL);
 	}
@@ -1062,6 +1063,8 @@ nni_aio_sys_init(nng_init_params *params)
 	for (int i = 0; i < num_thr; i++) {
 		nni_aio_expire_q *eq;
 		if ((eq = nni_aio_expire_q_alloc()) == NULL) {
+			// the queues made so far are running: stop them first
+			(void) nni_aio_sys_drain();
 			nni_aio_sys_fini();
 			return (NNG_ENOMEM);
 		}
